@@ -2,8 +2,10 @@ import SamVerif.Props.C12
 import SamVerif.Props.C12b
 import SamVerif.Props.C12d
 import SamVerif.Props.C12e
+import SamVerif.Props.C12f
+import SamVerif.Props.C12g
 /-! Axiom audit of every C12 property theorem (parsed by vlib/common.py). -/
-open SamVerif.ErrorSet SamVerif.Layout SamVerif.MirFull
+open SamVerif.ErrorSet SamVerif.Layout SamVerif.MirFull SamVerif.TempCounter
 #print axioms errorset_merge_ac
 #print axioms errorset_merge_assoc
 #print axioms errorset_extensional
@@ -19,6 +21,7 @@ open SamVerif.ErrorSet SamVerif.Layout SamVerif.MirFull
 #print axioms diagnostics_depend_on_ids_counterexample
 #print axioms diagnostics_depend_on_heap_ids_counterexample
 #print axioms diagnostics_ids_partial
+#print axioms diagnostics_by_name_independent_of_module_ids
 #print axioms ctx_layout_perm_invariant
 #print axioms numbering_is_renaming
 #print axioms layout_order_independent_counterexample
@@ -29,3 +32,9 @@ open SamVerif.ErrorSet SamVerif.Layout SamVerif.MirFull
 #print axioms layout_loop_counterexample
 #print axioms exec_ren
 #print axioms mir_rename_invariant_full
+#print axioms temp_names_distinct
+#print axioms temp_names_in_block
+#print axioms temp_names_onto_block
+#print axioms temp_names_defined_perm
+#print axioms temp_counter_renaming
+#print axioms temp_counter_renaming_injective
